@@ -1259,6 +1259,7 @@ def controller_sessions(prop: str, rng: random.Random, n: int, res: Result) -> l
     from funtracks.data_model.tracks_controller import TracksController
     fails: list[Failure] = []
     seen: set = set()
+    sc_jobs: list = []   # the same calls through the Lean model of the controller (family SC)
 
     def state_problems(case, t) -> list[str]:
         g = t.graph
@@ -1297,6 +1298,12 @@ def controller_sessions(prop: str, rng: random.Random, n: int, res: Result) -> l
         hist: list = []
         timeline = [observe(t)]
         cursor = 0
+        try:
+            sc_lines: list[str] | None = ["SC" + case.init_line(t)[1:]]
+        except Exception:
+            sc_lines = None
+        sc_states: list[dict] = [ses.state()]
+        sc_outs: list[str] = ["ok"]
         for _step in range(rng.randint(4, 10)):
             op = G.gen_op(rng, case, t, kinds)
             g = t.graph
@@ -1395,6 +1402,16 @@ def controller_sessions(prop: str, rng: random.Random, n: int, res: Result) -> l
                 out = "raised-other:" + type(e).__name__
             hist.append({k: v for k, v in op.items() if k != "groups"} | {"_out": out})
             res.evaluations += 1
+            if sc_lines is not None:
+                ln_ = sc_line(case, kind, op)
+                if ln_ is None:
+                    sc_lines = None
+                else:
+                    sc_lines.append(ln_)
+                    sc_states.append(ses.state())
+                    changed_ = (len(t.action_history.undo_stack), len(t.action_history.redo_stack)) != (nu, nr)
+                    sc_outs.append(out if kind in ("undo", "redo") else
+                                   ("err:" + out.split(":", 1)[1] if out.startswith("raised") else ("ok" if changed_ else "silent")))
             grown = len(t.action_history.undo_stack) - nu
             redo_delta = len(t.action_history.redo_stack) - nr
             changed_hist = grown != 0 or redo_delta != 0
@@ -1460,10 +1477,14 @@ def controller_sessions(prop: str, rng: random.Random, n: int, res: Result) -> l
                         after = observe(t)
                         try:
                             u_ = ctl.undo()
+                            if sc_lines is not None:
+                                sc_lines.append("SC undo"); sc_states.append(ses.state()); sc_outs.append("true" if u_ else "false")
                             if not u_ or observe(t) != before_obs:
                                 fail(f"{kind}|undo-does-not-restore", obs_diff(before_obs, observe(t)))
                                 stop = True
                             r_ = ctl.redo() if not stop else True
+                            if sc_lines is not None and not stop:
+                                sc_lines.append("SC redo"); sc_states.append(ses.state()); sc_outs.append("true" if r_ else "false")
                             if not stop and (not r_ or observe(t) != after):
                                 fail(f"{kind}|redo-does-not-reapply", obs_diff(after, observe(t)))
                                 stop = True
@@ -1487,6 +1508,92 @@ def controller_sessions(prop: str, rng: random.Random, n: int, res: Result) -> l
                 break
             if stop:
                 break
+        if sc_lines is not None and len(sc_lines) > 1:
+            sc_jobs.append((spec, copy.deepcopy(hist), sc_lines, sc_states, sc_outs))
+    fails += controller_correspondence(prop, sc_jobs, res)
+    return fails
+
+
+def sc_line(case: F.Case, kind: str, op: dict) -> str | None:
+    """one TracksController call in the model's line protocol (family SC, FtModel/ControllerDrv.lean)"""
+    if kind == "addedge":
+        return f"SC addedges 1 {op['u']} {op['v']} {op['force']}"
+    if kind == "deledge":
+        return f"SC deledges 1 {op['u']} {op['v']}"
+    if kind == "delnode":
+        return f"SC delnodes 1 {op['n']}"
+    if kind == "swap":
+        return f"SC swap {op['a']} {op['b']}"
+    if kind in ("undo", "redo"):
+        return f"SC {kind}"
+    if kind == "updattrs":
+        ns = op["nodes"]
+        vals = op["attrs"]["score"]
+        return (f"SC updattrs {len(ns)} " + " ".join(map(str, ns)) + f" 1 {F.K_SCORE} {len(vals)} "
+                + " ".join(f"t {v}" for v in vals))
+    if kind == "paint":
+        gs = op["groups"]
+        parts = [f"SC paint {op['value']} {len(gs)}"]
+        for px, ov in gs:
+            parts.append(f"{len(px)} " + " ".join(map(str, px)) + f" {ov}")
+        parts.append(f"{op['tid']} {op['force']}")
+        return " ".join(parts)
+    if kind == "addnode":
+        if "items" in op:   # with pixels: ids given
+            it = op["items"]
+            n = len(it)
+            col = lambda key: f"{n} " + " ".join(str(o[key]) for o in it)  # noqa: E731
+            masks = f"{n} " + " ".join(f"{len(o['pixels'])} " + " ".join(map(str, o["pixels"])) for o in it)
+            return f"SC addnodes {F.K_NODEID} {col('time')} {col('tid')} - {col('id')} 0 {masks} {op['force']}"
+        # without pixels: one node, generated id, position column(s)
+        cols = " ".join(f"{k} 1 t {op['pos']}" for k in case.pos_keys)
+        return f"SC addnodes {F.K_NODEID} 1 {op['time']} 1 {op['tid']} - - {len(case.pos_keys)} {cols} - {op['force']}"
+    return None
+
+
+def controller_correspondence(prop: str, jobs: list, res: Result) -> list[Failure]:
+    fails: list[Failure] = []
+    if not jobs:
+        return fails
+    try:
+        out = Driver().run([l for _, _, ls, _, _ in jobs for l in ls])
+    except Exception as e:  # noqa: BLE001
+        res.notes.append(f"controller correspondence: driver failed: {e}")
+        return fails
+    pos = 0
+    seen: set = set()
+    errmap = {"InvalidActionError": ("invalid", "forceable"), "ValueError": ("value",), "KeyError": ("key",),
+              "NetworkXError": ("key",), "IndexError": ("other",)}
+    for spec, hist, ls, states, outs in jobs:
+        seg_ = out[pos:pos + len(ls)]
+        pos += len(ls)
+        case = F.Case(spec)
+        for i, (line, st_, ro) in enumerate(zip(seg_, states, outs)):
+            head, mstate = F.parse_model_line(line)
+            diffs: list = []
+            if mstate is None:
+                diffs = [("outcome", f"model answered {head!r} to {ls[i][:70]!r}")]
+            else:
+                if ro == "silent":
+                    ok_ = head.startswith("refused") or head == "ok"
+                elif ro.startswith("err:"):
+                    ok_ = head.startswith("err:") and head[4:] in errmap.get(ro[4:], (ro[4:],))
+                else:
+                    ok_ = head == ro
+                if not ok_:
+                    diffs.append(("outcome", f"outcome model {head!r} code {ro!r}"))
+                diffs += F.compare(case, mstate, st_)
+            res.compared_steps += 1
+            if diffs:
+                sig = f"{prop}|controller-model-vs-code|{ls[i].split()[1]}"
+                mine = [d for f_, d in diffs if F.OWNER.get(f_, "C01") == prop or f_ == "outcome"] or [d for _, d in diffs]
+                if sig not in seen:
+                    seen.add(sig)
+                    fails.append(Failure("divergence", prop, sig,
+                                         f"TracksController call {i} ({ls[i][:90]}): " + "; ".join(mine[:3]),
+                                         {"spec": spec, "controller_history": hist[:i], "model_lines": ls[:i + 1], "step": i}))
+                break
+    res.count("controller-correspondence:sessions", len(jobs))
     return fails
 
 
